@@ -8,5 +8,6 @@ func init() {
 		gfSpec{Pkg: "./pkg/core/block", Recv: "Block", Func: "GetExpectedBlockSizeWithoutTransactions", Lean: "expectedBlockSizeWithoutTransactions"},
 		gfSpec{Pkg: "./pkg/vm", Func: "PicoGasToDatoshiInt64", Lean: "picoGasToDatoshiInt64"},
 		gfSpec{Pkg: "./pkg/smartcontract/scparser", Func: "IsStandardContract", Lean: "isStandardContract"},
+		gfSpec{Pkg: "./pkg/core/mempool", Func: "checkBalance", Lean: "mempoolCheckBalance"},
 	)
 }
